@@ -312,9 +312,13 @@ def run_history(ctx: RunCtx, U) -> None:
 
 
 def _hbrief(v):
+    if isinstance(v, list) and v and isinstance(v[0], dict) and "G" in v[0]:
+        return f"{len(v)} generating functions, coefficient digests {[digest(g['G'])[:8] for g in v]}"
+    if isinstance(v, dict) and v and all(isinstance(x, dict) and "blocks" in x for x in v.values()):
+        return "{" + ", ".join(f"{k}: {_hbrief(x)}" for k, x in v.items()) + "}"
     if isinstance(v, dict) and "blocks" in v:
         nz = [int(np.count_nonzero(b)) for b in v["blocks"]]
-        return f"Hamiltonian(degree={v['degree']}, blocks={len(v['blocks'])}, nonzeros per block={nz})"
+        return f"Hamiltonian(degree={v['degree']}, blocks={len(v['blocks'])}, nonzeros per block={nz}, digest={digest(v['blocks'])[:8]})"
     return brief(v)
 
 
